@@ -392,6 +392,10 @@ func (x *Exec) derefLoc(bc *blockCtx, in ssa.Instruction, p *Val) *Loc {
 	if bc != nil {
 		x.check(bc, "safe:nil", in, x.b.Not(x.b.Eq(p.T, x.b.Int(0))))
 	}
+	if l := x.resolveIptr(p.T); l != nil {
+		lc := *l
+		return &lc
+	}
 	if at, ok := pt.Elem().Underlying().(*types.Array); ok && x.arrayPtrInSliceSpace {
 		_ = at
 	}
